@@ -256,7 +256,9 @@ Definition mon_step (m : mon) (o : xop) (a : xans) (sn : snap) : mon :=
               else viol_k (m_tainted m) (is_prefix durable allb) 1 in
     let v2 := viol (is_subseq allb written) 2 in
     let taint := m_tainted m || (negb (status =? 0)%N && torn keep (m_hu m)) in
-    let hs' := skipn (List.length (concat (m_segs m))) allb in
+    (* after damage by flips the reader stops early: keep everything that may still be on disk *)
+    let hs' := if m_flipped m then m_hs m ++ m_hu m ++ d0s
+               else skipn (List.length (concat (m_segs m))) allb in
     add_verd (set_flags (set_j m (m_segs m) hs' []) (m_flipped m) taint)
              [v1; v2; viol (files_kept prev sn false) 4] sn
   | XFlip _ _ _, _ => add_verd (set_flags m true (m_tainted m)) [] sn
